@@ -8,7 +8,7 @@ class C07(Prop):
     level_text = 'Seeded search plus a complete sweep of all op sequences of length <= 4 over a stated small alphabet, every op and dispatch compared with an executable pause/resume/cancel model in lockstep. Exploration level: complete only for the tiny alphabet, sampled beyond.'
     level_note = 'Trusts: the harness model (QModel), dyadic grid; asset id -1 never paused.'
     design_ref = 'DESIGN.md section 4 / C07'
-    budgets = {'quick': 200000, 'thorough': 3000000}
+    budgets = {'quick': 200000, 'thorough': 1500000}
     rule = ('envsim programs biased to pause/unpause/cancel (>= 50% contain a pause of an id with pending events at a '
             'non-zero time and a later unpause), lockstep against a dict-based pause/resume/cancel model; plus a '
             'systematic family: all op sequences of length <= 4 (thorough; quick: length <= 3 and a slice of 4) over '
